@@ -780,6 +780,8 @@ func VHarnessCrash() {
 	if vParam("edits") == 2 {
 		vEdit()
 	}
+	// an edit may have removed a target from the project: only targets that exist are built
+	names = vFunctionNames()
 	vFail = map[string]bool{}
 	if k := vChoose("failing-body", len(names)+1); k > 0 {
 		vFail[names[k-1]] = true
